@@ -46,6 +46,10 @@ enum Extra {
     None,
     ReprC,
     NonExhaustive,
+    /// the derive_ex list is split over two stacked `#[derive_ex(..)]` attributes (like several `#[derive(..)]` lines)
+    Stacked,
+    /// the definition comes out of a `macro_rules!` macro; the field type `u8` arrives as an `ident` fragment
+    ViaMacro,
 }
 
 const ALL: [&str; 9] = ["Copy", "Clone", "Debug", "Default", "PartialEq", "Eq", "PartialOrd", "Ord", "Hash"];
@@ -101,8 +105,10 @@ fn field_ty(c: &Case, vi: usize, fi: usize) -> (&'static str, Vec<&'static str>)
             1 => ("Option<T>", vec!["None", "Some(1u8)"]),
             _ => ("u8", vec!["0u8", "1u8"]),
         },
-        GOpt::LifetimeT => match (vi + fi) % 2 {
+        GOpt::LifetimeT => match (vi + fi) % 3 {
             0 => ("&'a T", vec!["&0u8", "&1u8"]),
+            // the parameter behind a reference and by value in one type
+            1 => ("T", vec!["0u8", "1u8"]),
             _ => ("u8", vec!["0u8", "1u8"]),
         },
         GOpt::ConstN => match (vi + fi) % 2 {
@@ -233,7 +239,10 @@ fn gen_options(ch: &mut Ch, thorough: bool) -> Option<Case> {
     if naming == Naming::Prelude && gopt != GOpt::None {
         return None;
     }
-    let extra = *ch.of(&[Extra::None, Extra::ReprC, Extra::NonExhaustive]);
+    let extra = *ch.of(&[Extra::None, Extra::ReprC, Extra::NonExhaustive, Extra::Stacked, Extra::ViaMacro]);
+    if extra == Extra::ViaMacro && (gopt != GOpt::None || naming != Naming::Neutral) {
+        return None;
+    }
     let dev = (gopt != GOpt::None) as usize + (naming != Naming::Neutral) as usize + (extra != Extra::None) as usize;
     // raw identifiers together with a type parameter (which is then raw as well) are explored in the quick tier too
     let raw_generic = naming == Naming::Raw && gopt == GOpt::T && extra == Extra::None;
@@ -307,7 +316,7 @@ fn item_and_values(c: &Case, module: &str) -> (String, Vec<String>) {
         }
     }
     let extra = match c.extra {
-        Extra::None => "",
+        Extra::None | Extra::Stacked | Extra::ViaMacro => "",
         Extra::ReprC => "#[repr(C)] ",
         Extra::NonExhaustive => "#[non_exhaustive] ",
     };
@@ -357,13 +366,18 @@ fn build(c: &Case) -> Built {
     let (_, _, gargs) = generics_of(c.gopt);
     let (item, vals_dx) = item_and_values(c, "dx");
     let (_, vals_st) = item_and_values(c, "st");
+    let lists_text = if c.extra == Extra::Stacked && dx_list.len() >= 2 { format!("#[derive_ex({})]\n#[derive_ex({})]", dx_list[0], dx_list[1..].join(", ")) } else { format!("#[derive_ex({})]", dx_list.join(", ")) };
     let head = match c.entry {
-        Entry::Attr => format!("#[derive_ex({})]", dx_list.join(", ")),
-        Entry::Derive => format!("#[derive(Ex)]\n#[derive_ex({})]", dx_list.join(", ")),
+        Entry::Attr => lists_text,
+        Entry::Derive => format!("#[derive(Ex)]\n{lists_text}"),
     };
     let std_derive = |l: &[&str]| if l.is_empty() { String::new() } else { format!("#[derive({})]", l.join(", ")) };
     let st_mod = format!("pub mod st {{\n{}\n{}\n}}\n", std_derive(&app), item);
-    let dx_mod = format!("pub mod dx {{ use derive_ex::{{derive_ex, Ex}};\n{head}\n{}\n{}\n}}\n", std_derive(&std_rest), item);
+    let dx_mod = if c.extra == Extra::ViaMacro {
+        format!("pub mod dx {{ use derive_ex::{{derive_ex, Ex}};\nmacro_rules! mk_item {{ ($t:ident) => {{\n{head}\n{}\n{}\n}} }}\nmk_item!(u8);\n}}\n", std_derive(&std_rest), crate::c10::replace_word(&item, "u8", "$t"))
+    } else {
+        format!("pub mod dx {{ use derive_ex::{{derive_ex, Ex}};\n{head}\n{}\n{}\n}}\n", std_derive(&std_rest), item)
+    };
     let has = |t: &str| app.contains(&t);
     let unsized_ = c.gopt == GOpt::UnsizedTail;
     let mut s = String::new();
